@@ -49,7 +49,7 @@ NOW = 1790000000.25
 
 def docroot():
     if not _root:
-        d = tempfile.mkdtemp(prefix="verif_c17_")
+        d = tempfile.mkdtemp(prefix="verif_c17d_")
         with open(os.path.join(d, "static.txt"), "w") as f:
             f.write("static file content 0123456789")
         os.makedirs(os.path.join(d, "dir"))
@@ -409,10 +409,13 @@ def unfreeze(saved):
 
 def canon_body(body, app):
     text = body.decode("utf-8", "replace")
+    # the sandbox directory differs between processes - first of all: its random name may look like an application name
+    # (`verif_c17_12_3...`, about one directory in 400), and was then canonicalised as one: a false alarm on the unchanged
+    # tree, seen once under a parallel retest
+    text = re.sub(re.escape(tempfile.gettempdir()) + r"/verif_c17d_\w+", "DOCROOT", text)
     text = text.replace(app.name, "APPNAME")
     text = re.sub(r"0x[0-9a-f]{6,}", "0xADDR", text)
     text = re.sub(r"verif_c17_\d+_\d+", "APPNAME", text)
-    text = re.sub(r"/tmp/verif_c17_\w+", "DOCROOT", text)       # the sandbox directory differs between processes
     text = re.sub(r"\d\d-[A-Z][a-z]{2}-\d{4} \d\d:\d\d", "DATE", text)   # ... and so do the times of its files
     return text
 
@@ -722,7 +725,10 @@ def compare(case, got, want, what):
         return "%s: no answer" % what
     for i, name in enumerate(("status", "headers", "body", "request attributes at the switch points")):
         if got[i] != want[i]:
-            return "%s: %s differs from the fresh application's: %r instead of %r" % (what, name, str(got[i])[:200], str(want[i])[:200])
+            a, b = str(got[i]), str(want[i])
+            k = next((j for j in range(min(len(a), len(b))) if a[j] != b[j]), min(len(a), len(b)))
+            k = max(0, k - 60)          # show the place where they part
+            return "%s: %s differs from the fresh application's: %r instead of %r" % (what, name, a[k:k + 200], b[k:k + 200])
     return "%s differs" % what
 
 
